@@ -179,8 +179,8 @@ impl Property for C15 {
     }
     fn cases(&self, tier: Tier) -> u32 {
         match tier {
-            Tier::Quick => 3000,
-            Tier::Thorough => 40000,
+            Tier::Quick => 40_000,
+            Tier::Thorough => 400_000,
         }
     }
     fn rule(&self) -> String {
